@@ -83,8 +83,8 @@ CLAIMED = {
              'the rewrite step composed with one evaluator layer (optimize_and_partial, optimize_or_partial). Global (Props/C08_Global.lean, Lemmas/Opt.lean, Lemmas/OptMain.lean): '
              'optimize_preserves_restricted - every evaluation the restricted evaluator evalF completes also completes on the optimised expression with the same value, the same final '
              'state and the same fuel, by induction on the fuel with one congruence lemma per operator (operand_congruence) and the rule theorems; evalF is eval with dynamic checks '
-             'that exclude fn/defsig/defmacro/groups/array on operands the pass rewrites, reval/all-scopes on an operand that is no expression form after the pass, constant products '
-             'with a non-integer factor, and operators obtained as values (restricted_is_evaluation: evalF is a restriction of eval); optimize_preserves_any_fuel; case_key_untouched (the key of a case clause is data: '
+             'that exclude fn/defsig/defmacro/array on operands the pass rewrites, reval/all-scopes on an operand that is no expression form after the pass, constant products '
+             'with a non-integer factor, and operators obtained as values (restricted_is_evaluation: evalF is a restriction of eval); optimize_preserves_any_fuel; groups_untouched (second defect found and repaired: efa3f75); case_key_untouched (the key of a case clause is data: '
              'left as written - the defect found by this check and repaired). Correspondence and search: every '
              'generated program runs with and without the pass (without and with resolve) on fresh interpreters and on the model; oracle = '
              'result+type, stdout, variables, trace index with vs without the pass on the implementation.',
